@@ -124,6 +124,46 @@ def clear_of(p, a):
     return end_of(p) <= a.timestamp or end_of(a) <= p.timestamp
 
 
+@spec
+def bfree(b, lo, hi):
+    """event b covers no positive amount of time inside the open interval (lo, hi)"""
+    return not (max(b.timestamp, lo) < min(end_of(b), hi))
+
+
+@spec
+def bfree_from(b, lo):
+    """event b covers no positive amount of time after lo"""
+    return not (max(b.timestamp, lo) < end_of(b))
+
+
+@spec
+def bfree_until(b, hi):
+    """event b covers no positive amount of time before hi"""
+    return not (b.timestamp < min(end_of(b), hi))
+
+
+# completeness as absence of list-two time in the gaps of the output (list-one events are all in the output, which is ordered in
+# time, so a gap between two consecutive output events contains no list-one time: whatever list-two time lay there would be lost)
+GAPS_OK = "all(bfree(B0[j], end_of({OUT}[r]), {OUT}[r + 1].timestamp) for r in range(len({OUT}) - 1) for j in range(len(B0)))"
+
+@spec
+def settled(b, out, A, e1_i, ev2, e2_i):
+    """No time of the list-two event b lies in the part of the time line the sweep has passed without output - i.e. between the
+    end of the output so far and the current list-two head - unless the current list-one event covers it."""
+    return (bfree(b,
+                  end_of(out[len(out) - 1]) if len(out) > 0 else b.timestamp,
+                  min(ev2[e2_i].timestamp if e2_i < len(ev2) else end_of(b), A[e1_i].timestamp if e1_i < len(A) else end_of(b)))
+            and (e1_i >= len(A)
+                 or bfree(b, max(end_of(out[len(out) - 1]) if len(out) > 0 else b.timestamp, end_of(A[e1_i])),
+                          ev2[e2_i].timestamp if e2_i < len(ev2) else end_of(b))))
+
+
+COMPLETE_INV = [
+    GAPS_OK.format(OUT="events_union"),
+    "len(events_union) == 0 or all(bfree_until(B0[j], events_union[0].timestamp) for j in range(len(B0)))",
+    "all(settled(B0[j], events_union, A, e1_i, events2, e2_i) for j in range(len(B0)))",
+]
+
 OUT_OK = [
     "len(src) == len({OUT})",
     "all(src[r] != -1 or (0 <= inv1[r] and inv1[r] < {K1} and {OUT}[r] is A[inv1[r]]) for r in range(len({OUT})))",
@@ -203,6 +243,18 @@ contract(
         "all(end_of(result[r]) <= result[r2].timestamp for r in range(T2, len(result)) for r2 in range(r + 1, len(result)))",
         "T1 == T2 or T2 == len(result)",
         "all(end_of(result[r]) <= result[r2].timestamp for r in range(len(result)) for r2 in range(r + 1, len(result)))",
+        # (2, completeness) no list-two time is lost: the output is ordered in time and contains every list-one event, so a gap
+        # between consecutive output events holds no list-one time - and, as stated here, no list-two time either; nor does any
+        # list-two time lie before the first or after the last output event
+        # (region by region first: the loop's output, the seam, the appended rest of list one / of the working list two)
+        "all(bfree(B0[j], end_of(result[r]), result[r + 1].timestamp) for r in range(T1 - 1) for j in range(len(B0)))",
+        "T1 == 0 or T1 >= len(result) or all(bfree(B0[j], end_of(result[T1 - 1]), result[T1].timestamp) for j in range(len(B0)))",
+        "all(bfree(B0[j], end_of(result[r]), result[r + 1].timestamp) for r in range(T1, T2 - 1) for j in range(len(B0)))",
+        "all(bfree(B0[j], end_of(result[r]), result[r + 1].timestamp) for r in range(T2, len(result) - 1) for j in range(len(B0)))",
+        GAPS_OK.format(OUT="result"),
+        "len(result) == 0 or all(bfree_until(B0[j], result[0].timestamp) and bfree_from(B0[j], end_of(result[len(result) - 1]))"
+        "                        for j in range(len(B0)))",
+        "len(result) > 0 or all(B0[j].duration <= timedelta(0) for j in range(len(B0)))",
         # (4) inputs are not modified
         "len(events1) == old(len(events1)) and len(events2) == old(len(events2))",
         "all(events1[i] is old(events1[i]) and events1[i].timestamp == old(events1[i].timestamp) "
@@ -239,7 +291,7 @@ contract(
             "    and A[i].data == old(events1[i].data) and A[i].id == old(events1[i].id) for i in range(len(A)))",
             "all(B0[j].timestamp == old(events2[j].timestamp) and B0[j].duration == old(events2[j].duration) "
             "    and B0[j].data == old(events2[j].data) for j in range(len(B0)))",
-        ] + [c.format(OUT="events_union", K1="e1_i") for c in OUT_OK],
+        ] + [c.format(OUT="events_union", K1="e1_i") for c in OUT_OK] + COMPLETE_INV,
         hints=[
             # facts about the element of list two that was current when the step began (its object is never written)
             "end_of(prev(events2[e2_i])) == end_of(B0[prev(j0)]) and prev(events2[e2_i]).duration >= timedelta(0)"
